@@ -331,6 +331,9 @@ int main(int argc, char** argv)
     m.job("bsearch/bidi", both, [](mc::Reporter& r) { job_bsearch<BidiF>(r, 7, 10); });
     m.job("bsearch/ra", both, [](mc::Reporter& r) { job_bsearch<RaF>(r, 7, 10); });
     m.job("bsearch/rev", both, [](mc::Reporter& r) { job_bsearch<RevF>(r, 7, 9); });
+    m.job("sub/bsearch/ptr", both, sub([](mc::Reporter& r) { job_bsearch<PtrF>(r, 7, 10); }));
+    m.job("sub/bsearch/fwd", both, sub([](mc::Reporter& r) { job_bsearch<FwdF>(r, 7, 10); }));
+    m.job("sub/bsearch/rev", both, sub([](mc::Reporter& r) { job_bsearch<RevF>(r, 7, 9); }));
     m.job("select", both, [](mc::Reporter& r) {
         Ctx c(r);
         select_family(c);
@@ -340,10 +343,13 @@ int main(int argc, char** argv)
 #if !defined(MC_PART) || MC_PART == 2
     m.job("merge/ptr+ptr->ptr", both, [](mc::Reporter& r) { job_merge<PtrF, PtrF, PtrF>(r, 5, 5, 10, 8); });
     m.job("merge/input+input->output", both, [](mc::Reporter& r) { job_merge<InF, InF, OutF>(r, 5, 5, 10, 8); });
+    m.job("sub/merge/ptr+ptr->ptr", both, sub([](mc::Reporter& r) { job_merge<PtrF, PtrF, PtrF>(r, 5, 5, 10, 8); }));
+    m.job("sub/merge/input+input->output", both, sub([](mc::Reporter& r) { job_merge<InF, InF, OutF>(r, 5, 5, 10, 8); }));
 #endif
 #if !defined(MC_PART) || MC_PART == 3
     m.job("merge/fwd+bidi->fwd", both, [](mc::Reporter& r) { job_merge<FwdF, BidiF, FwdF>(r, 5, 5, 10, 8); });
     m.job("merge/ra+rev->back_inserter", both, [](mc::Reporter& r) { job_merge<RaF, RevF, BackInsF>(r, 5, 5, 10, 8); });
+    m.job("sub/merge/fwd+bidi->fwd", both, sub([](mc::Reporter& r) { job_merge<FwdF, BidiF, FwdF>(r, 5, 5, 10, 8); }));
 #endif
 #endif
     return m.run();
